@@ -41,6 +41,13 @@ Q05 = [("handles", 24000), ("lifecycle", 12000), ("owning", 6000), ("mailbox", 4
 Q12 = [("backpressure", 30000), ("mailbox", 10000), ("lifecycle", 4000)]
 Q17 = [("owning", 30000), ("lifecycle", 10000), ("mailbox", 4000)]
 
+Q07 = [("restart", 30000), ("lifecycle", 12000), ("kinds", 4000)]
+Q10 = [("timers", 30000), ("restart", 6000), ("handles", 6000), ("kinds", 6000), ("lifecycle", 4000)]
+Q11 = [("timeout", 40000)]
+Q13 = [("stream", 30000), ("lifecycle", 10000), ("owning", 6000)]
+Q14 = [("liveness", 30000), ("lifecycle", 10000), ("handles", 6000)]
+Q15 = [("kinds", 30000), ("handles", 12000), ("restart", 4000), ("lifecycle", 4000)]
+
 PLANS = {
     "C01": plan(Q01, scale(Q01, 40),
                 ">=2 clients submitted and both the waiting and the forcing path were used",
@@ -68,4 +75,28 @@ PLANS = {
                 "a join/consume yielded the actor, or an OwningAddr was detached",
                 ["C17.R1.join_after_stopped", "C17.R1.first_join_result", "C17.R2.final_state", "C17.R3.at_most_once", "C17.R4.join_resolves",
                  "C17.R6.detach_keeps_running"]),
+    "C07": plan(Q07, scale(Q07, 40),
+                "at least one restart request (Addr::restart or Context::restart) was accepted",
+                ["C07.R1.handles_survive", "C07.R2.incarnation_of_message", "C07.R3.restart_count", "C07.R3.strategy_model",
+                 "C07.R3.state_carried_or_reset", "C07.R3.non_restartable_ignores", "C07.R4.started_error_fails", "C07.R5.old_timers_silent"]),
+    "C10": plan(Q10, scale(Q10, 40),
+                "a periodic timer delivered at least twice, or an actor terminated while its timers were pending",
+                ["C10.R1.not_before_period", "C10.R2.exact_schedule", "C10.R3.delayed_at_most_once", "C10.R4.nothing_after_end",
+                 "C10.R5.timers_do_not_prolong", "C10.R6.timer_tasks_end"]),
+    "C11": plan(Q11, scale(Q11, 40),
+                "an invocation needed more virtual time than the configured timeout",
+                ["C11.R1.below_limit_completes", "C11.R2.above_limit_abandoned", "C11.R2.caller_gets_error", "C11.R3.continues_after_timeout",
+                 "C11.R3.successor_handled", "C11.R3.state_intact", "C11.R4.fail_on_timeout_terminates", "C11.R5.no_timeout_no_abandon"]),
+    "C13": plan(Q13, scale(Q13, 40),
+                "a stream-attached actor handled both stream items and messages, or was stopped/dropped while its stream was endless",
+                ["C13.R1.items_exactly_once_in_order", "C13.R1.items", "C13.R2.messages_in_order", "C13.R3.never_abandoned", "C13.R4.terminates",
+                 "C13.R4.terminates_despite_endless_stream", "C13.R4.await_ok", "C13.R5.bounded_progress_after_stop"]),
+    "C14": plan(Q14, scale(Q14, 40),
+                "stopped()/running() was queried after the actor task had ended, or a registry operation followed an un-awaited termination",
+                ["C14.R1.running_before_termination", "C14.R2.stopped_after_termination", "C14.R3.from_registry_returns_live_instance",
+                 "C14.R3.respawn_after_unawaited_termination", "C14.R3.try_from_registry_never_dead", "C14.R3.register_after_unawaited_termination"]),
+    "C15": plan(Q15, scale(Q15, 40),
+                "a context operation, weak upgrade or timer was observed while neither an Addr nor an OwningAddr was alive",
+                ["C15.R1.ctx_stop_ok", "C15.R2.ctx_restart_ok", "C15.R3.timers_keep_firing", "C15.R4.upgrade_while_strong",
+                 "C15.R5.same_actor_through_conversions"]),
 }
